@@ -9,6 +9,7 @@ import Atto.Driver.CharsetOp
 import Atto.Driver.HappyOp
 import Atto.Driver.WdOp
 import Atto.Driver.TlsOp
+import Atto.Driver.StageOp
 namespace Atto.Driver
 open Atto
 
@@ -69,6 +70,7 @@ def runLine (line : String) : String :=
   | "wd" :: args => opWd args
   | "nop" :: _ => "nop"
   | "tls" :: args => opTls args
+  | "stage" :: args => opStage args
   | "penv" :: args => opPenv args
   | _ => "bad-op"
 
